@@ -158,8 +158,8 @@ def run_strace(cli, sc, inject=None, timeout=60):
     return events, raw, end, so, se, prior
 
 
-def make_run(sc, run_id, events, end, so, se, prior, injected):
-    start = {'ev': 'Start', 'run': run_id, 'dest': sc.dest, 'prior': prior, 'new': sc.new, 'allowed': sc.skilldir,
+def make_run(sc, run_id, events, end, so, se, prior, injected, rerun=False):
+    start = {'ev': 'Start', 'run': run_id, 'rerun': rerun, 'dest': sc.dest, 'prior': prior, 'new': sc.new, 'allowed': sc.skilldir,
              'expectok': sc.expectok, 'injected': injected, 'agent': sc.agent, 'flags': sc.flags, 'priorstate': sc.prior}
     out = [start] + [sc.annotate(dict(e)) for e in events if e['ev'] != 'Link']
     if end and end[0] == 'exit':
@@ -253,7 +253,7 @@ def main_c15(tier):
                                     # a later successful run completes the installation
                                     ev3, raw3, end3, so3, se3, pr3 = run_strace(cli, sc)
                                     nruns += 1
-                                    lines += make_run(sc, rid + '/rerun', ev3, end3, so3, se3, pr3, False)
+                                    lines += make_run(sc, rid + '/rerun', ev3, end3, so3, se3, pr3, False, rerun=True)
                                     runmeta[rid + '/rerun'] = {'args': sc.args, 'inject': None, 'after': inj}
                         want = {(m_, r['path']) for m_ in ('kill', 'fault') for r in raw if r['name'] == kind and r['path'] and r['path'].startswith(sc.top)}
                         # temp names are random: compare by directory + role
